@@ -44,7 +44,7 @@ Lemma bind_Err {X Y} (e : res X) (f : X -> res Y) er :
 Proof.
   destruct e as [a|er']; cbn [bind].
   - split; [intros H; right; exists a; auto | intros [E|(b & E & H)]; [discriminate | inversion E; subst; exact H]].
-  - split; [intros H; left; exact H | intros [E|(b & E & _)]; [exact E | discriminate]].
+  - split; [intros H; left; inversion H; reflexivity | intros [E|(b & E & _)]; [inversion E; reflexivity | discriminate]].
 Qed.
 
 Lemma of_opt_Err {X} e (o : option X) er : of_opt e o = Err er -> er = e.
@@ -95,7 +95,8 @@ Section Inverse.
 
   Lemma wf_gp x y : wf (gp O A x y). Proof. apply (AN wfmv_gp). Qed.
   Lemma wf_sub x y : wf (sub O A x y). Proof. apply (AN wfmv_sub). Qed.
-  Lemma wf_cs (z : mv R) : wf (canon_sort A z). Proof. apply (AN wfmv_cs). Qed.
+  Lemma wf_cs (z : mv R) : wf (canon_sort A z).
+  Proof. exact (wfmv_canon_sort R A (sh_keys A SH) (sh_nodup A SH) z). Qed.
 
   Lemma wf_imul x y : wf (imul x y). Proof. apply wf_F, wf_gp. Qed.
   Lemma eq_imul x y : imul x y == gp O A x y. Proof. apply eq_F, wf_gp. Qed.
@@ -109,16 +110,16 @@ Section Inverse.
   Lemma eq_iinvo x : i_invo O F A x == involute O A x. Proof. apply eq_F, wf_cs. Qed.
   Lemma wf_isp x y : wf (i_sp O F A x y). Proof. apply wf_F, wf_cs. Qed.
   Lemma eq_isp x y : i_sp O F A x y == sp O A x y. Proof. apply eq_F, wf_cs. Qed.
-  Lemma wf_scalar c : wf (scalar_mv c). Proof. apply (AN wfmv_scalar). Qed.
-  Lemma wf_blade_e : wf (blade_e O). Proof. apply (AN wfmv_scalar). Qed.
-  Lemma wf_one : wf one. Proof. apply (AN wfmv_one). Qed.
-  Lemma wf_scal c x : wf x -> wf (scal c x). Proof. apply (AN wfmv_scal). Qed.
+  Lemma wf_scalar c : wf (scalar_mv c). Proof. apply wfmv_scalar. Qed.
+  Lemma wf_blade_e : wf (blade_e O). Proof. apply wfmv_scalar. Qed.
+  Lemma wf_one : wf one. Proof. apply wfmv_one. Qed.
+  Lemma wf_scal c x : wf x -> wf (scal c x). Proof. apply wfmv_scal. Qed.
 
   (* congruences of gp in the form used below *)
   Lemma gp_cl x x' y : wf x -> wf x' -> wf y -> x == x' -> gp O A x y == gp O A x' y.
-  Proof. apply (AT gp_congr_l). Qed.
+  Proof. apply gp_congr_l; exact Rth. Qed.
   Lemma gp_cr x y y' : wf x -> wf y -> wf y' -> y == y' -> gp O A x y == gp O A x y'.
-  Proof. apply (AT gp_congr_r). Qed.
+  Proof. apply gp_congr_r; exact Rth. Qed.
 
   (* ================= 1. soundness of "numerator over scalar denominator" ================= *)
 
@@ -311,7 +312,7 @@ Section Inverse.
     pose proof (inv_numden_wf _ _ _ E) as Hn.
     set (e := dv rI den).
     transitivity (scal e (imul x num)); [apply imul_scalar; apply wf_imul|].
-    transitivity (scal e (gp O A x num)); [apply (AT scal_congr); apply eq_imul|].
+    transitivity (scal e (gp O A x num)); [apply (scal_congr R rO rI radd rmul rsub ropp Rth); apply eq_imul|].
     transitivity (gp O A x (scal e num)); [symmetry; apply (AT gp_scal_r); assumption|].
     apply gp_cr; [exact Hx | apply wf_scal; exact Hn | apply wf_imul | symmetry; apply imul_scalar; exact Hn].
   Qed.
